@@ -6,5 +6,5 @@ W=/var/tmp/mutwt-$$
 git -C /repo worktree add -q --detach "$W" HEAD || exit 2
 trap 'git -C /repo worktree remove --force "$W" >/dev/null 2>&1' EXIT
 (cd "$W" && (git apply "$P" 2>/dev/null || git apply --3way "$P")) || { echo "patch does not apply"; exit 2; }
-VERIF_ROOT_EVID=1 VERIF_REPO="$W" VERIF_NO_EVIDENCE=1 /verif/check "$ID" "$TIER"
+VERIF_ROOT_EVID=1 VERIF_REPO="$W" VERIF_NO_EVIDENCE=1 "$(cd "$(dirname "$0")/.." && pwd)/check" "$ID" "$TIER"
 echo "exit=$?"
